@@ -328,7 +328,7 @@ def plan_c17(tier, seed):
                for n, d in (('hsl_sat_def', 'S vs (max-min)/(1-|2L-1|) within 1e-4 for 0.01<=L<=0.99'),
                             ('hsl_hue_def_red', 'H vs hexcone hue, red sextants, 0.01 deg, max-min >= 0.01'),
                             ('hsl_hue_def_green', 'green sextants'), ('hsl_hue_def_blue', 'blue sextants'))]
-    return {'verus': [('u_hsl', {})], 'kani': [{'crate_dir': '', 'inject': [KH, KL, KHP], 'harnesses': hs, 'timeout': 22000}]}
+    return {'verus': [('u_hsl', {}), ('u_dispatch', {})], 'kani': [{'crate_dir': '', 'inject': [KH, KL, KHP], 'harnesses': hs, 'timeout': 22000}]}
 reg('C17', plan=plan_c17, level='proof', min_obligations=200,
     title='HSL conversion follows the hexcone model, stays in range and round-trips (exact reals + bit-precise ranges)',
     technique='Verus exact-real contracts on the real lrgb_to_hsl / hsl_to_lrgb (hexcone definition, L=0/L=1, round-trip lemma); Kani loop-free harnesses over every f32 triple of [0,1]^3 (bit-precise ranges, L definition, grey)',
@@ -431,7 +431,7 @@ def plan_c04(tier, seed):
           H('opsin_unit_cube_positive', domain='[0,1]^3', desc='mixes finite, >= 0.003 (normal positive argument for cbrtf), <= 1.01'),
           H('xyb_definition_structure_stubbed_cbrt', bounded='8^3 grid {-1,-0.6,-0.25,0,0.3,0.5,1,4}^3 of one-pixel images; cbrtf stubbed by a cheap smooth g (the cube root itself is C18)',
             domain='512 pixels (symbolic index triple)', desc='real linear_rgb_to_xyb == the statement formula X=(L-M)/2, Y=(L+M)/2, B=S, (L,M,S)=g(max(0,A*rgb+b))-g(b) from libjxl digits in f64, within 5e-5: decides where clamp, bias and X/Y mix sit, independently of the Verus loop anchors')]
-    return {'verus': [('u_xyb', {})], 'kani': [{'crate_dir': '', 'inject': [KX], 'harnesses': hs}]}
+    return {'verus': [('u_xyb', {}), ('u_dispatch', {})], 'kani': [{'crate_dir': '', 'inject': [KX], 'harnesses': hs}]}
 reg('C04', plan=plan_c04, level='proof', min_obligations=60,
     title='Linear RGB->XYB equals the JPEG XL opsin definition (exact reals, cbrtf uninterpreted)',
     technique='Verus exact-real contracts on the real linear_rgb_to_xyb (whole per-image function), opsin_absorbance, mixed_to_xyb and the extracted constants vs the libjxl digits of the statement',
@@ -443,7 +443,7 @@ reg('C04', plan=plan_c04, level='proof', min_obligations=60,
 def plan_c05(tier, seed):
     hs = [H('xyb_inverse_one_pixel_total', bounded='Vec length 1', domain='one pixel, all f32 triples', desc='xyb_to_linear_rgb total (no panic/overflow), length preserved'),
           H('xyb_round_trip_fixed_2px', fixed=True, bounded='two FIXED pixels, real cbrtf', domain='one fixed 2-pixel image', desc='real linear_rgb_to_xyb then xyb_to_linear_rgb returns both pixels within 5e-5 (f32, real cube root), length kept')]
-    return {'verus': [('u_xyb', {})], 'kani': [{'crate_dir': '', 'inject': [KX], 'harnesses': hs}]}
+    return {'verus': [('u_xyb', {}), ('u_dispatch', {})], 'kani': [{'crate_dir': '', 'inject': [KX], 'harnesses': hs}]}
 reg('C05', plan=plan_c05, level='proof', min_obligations=40,
     title='XYB->linear RGB inverts the forward XYB transform (exact reals, ideal cube root)',
     technique='Verus exact-real contracts on the real xyb_to_linear_rgb and linear_rgb_to_xyb + round-trip lemma: with an ideal cube root the composition is p + (INV*A - I)p, residual entries <= 1e-6',
@@ -503,7 +503,7 @@ def plan_c16(tier, seed):
            ['rec_1886_eotf', 'rec_1886_inverse_eotf', 'rec_470m_oetf', 'rec_470m_inverse_oetf', 'rec_470bg_oetf', 'rec_470bg_inverse_oetf',
             'xvycc_eotf', 'xvycc_inverse_eotf', 'srgb_eotf', 'srgb_inverse_eotf', 'st_2084_inverse_oetf', 'st_2084_oetf']]
     hs += [H(f'prim_{p}_to709', domain='input-free', desc='white -> white within 1e-5 (greys follow by linearity)') for p in PRIMS]
-    return {'verus': [('u_color', {}), ('u_xyb', {})], 'kani': [{'crate_dir': '', 'inject': [YR, KC, KT, KH], 'harnesses': hs}]}
+    return {'verus': [('u_color', {}), ('u_xyb', {}), ('u_dispatch', {})], 'kani': [api_job('decode', 'quick', 2), {'crate_dir': '', 'inject': [YR, KC, KT, KH], 'harnesses': hs}]}
 reg('C16', plan=plan_c16, level='proof', min_obligations=3000,
     title='The neutral axis and the black/white anchors survive every stage',
     technique='Kani bit-precise: anchors of the code<->float maps (all depths/ranges/storage), R=G=B for every luma value through the 7 real decode matrices, HSL grey, curve anchors, white->white for all primaries; Verus exact: encode rows sum to (1,0,0), opsin rows sum to 1 with equal biases',
@@ -520,7 +520,7 @@ def plan_c10(tier, seed):
     if tier == 'thorough':   # PQ (8 powf per round trip) did not finish in 25 min: thorough only, under a per-harness timeout, never an alarm on timeout
         hs.append(H('grid10_pq', bounded='optional: 10-bit code grid, PQ; per-harness timeout', domain='c in 0..=1023', timeout=3600, desc='PQ round trip < 5.7e-4'))
     hs += [h for h in curve_point_harnesses(tier, pq=(tier == 'thorough')) if h.name not in ('curve_points_linear', 'curve_points_pq_two_evaluations')]
-    return {'verus': [('u_curves', {})], 'kani': [{'crate_dir': '', 'inject': [KT, KCP], 'harnesses': hs, 'timeout': 3000}]}
+    return {'verus': [('u_curves', {}), ('u_dispatch', {})], 'kani': [{'crate_dir': '', 'inject': [KT, KCP], 'harnesses': hs, 'timeout': 3000}]}
 reg('C10', plan=plan_c10, level='model_checking', min_obligations=0,
     title='Gamma->linear->gamma on the 10-bit grid (bounded stand-in; nothing counted as proved)',
     technique='bounded Kani/CBMC: the real scalar curve pair composed on every point of the 10-bit code grid (bit-precise); plus a Verus exact-real lemma: with an ideal power function the pure power-law pairs compose to the identity for every x >= 0',
